@@ -34,6 +34,13 @@ Sensitivity (scratch copies, quick tier, seed 1):
   * web.py X-CSRFToken header no longer consulted                                          -> caught (issued_token_rejected)
   * web.py _decode_xsrf_token catches only binascii.Error                                  -> caught (server_error 500 on '2|aabbccdd|00')
   * web.py header consulted before the form argument                                       -> caught (matching_token_rejected with two disagreeing carriers)
+  * web.py _decode_xsrf_token: the catch-all handler formats the local `version`, which is unbound when
+    int() of an over-long version prefix ('7'*4301+'|') raises -> UnboundLocalError -> 500  -> caught (server_error; found
+    by the enumerated "edge" part in cookie and token position, and by the exploration).  Missed before: the malformed
+    classes had no input that fails *before* the version is known; the check's own decoder also called int() on it.
+The "edge" part runs every malformed string (~47: over-long version prefixes and timestamps, odd/non-hex masks,
+non-ASCII digits, versions 0 / -1 / +2 / 2_0, wrong field counts ...) as cookie and as token through body, query,
+multipart and header carriers for both app versions (658 cases).
 """
 import html
 import re
@@ -49,7 +56,8 @@ PROPERTY = "C24"
 READY = True
 RULE = (
     "Hypothesis: (cookie version of the app, urandom seed, cookie spec, 1..2 (carrier, token spec) pairs, "
-    "method); cookie/token specs as listed in the module docstring; non-trivial = unsafe method with both a "
+    "method); cookie/token specs as listed in the module docstring; plus an enumerated 'edge' part: every "
+    "malformed string as cookie and as token through each carrier; non-trivial = unsafe method with both a "
     "cookie and a token present; distinct = SHA-1 of the case"
 )
 ASSUMPTIONS = [
@@ -102,7 +110,7 @@ def dec(text):
         return ("either",)
     m = _VER.match(text)
     if m:
-        if int(m.group(1)) != 2:
+        if m.group(1) != "2":      # compared as text: the prefix may be thousands of digits long
             return ("bad",)
         f = text.split("|")
         if len(f) != 4:
@@ -379,6 +387,12 @@ MALFORMED = [
     "2|aabb|1122|5", "2|aabbccdd||5", "|", "2|", "2|||", "abc", "abcd", "ABCD", "02|aabbccdd|1122|5", "2|aabbccdd|1122|",
     "2|aabbccdd|1122|x", "2|aabbccdd|1122|1_0", "2|aabbccdd|1122|+5", "2|aabbccddee|1122|5", "1|aabbccdd|1122|5",
     "99999999999999999999|a|b|c", "2|AABBCCDD|1122|5", "2|aabbccdd|112|5", "hello-world", "2|aabbccdd|1122|" + "9" * 5000,
+    # decode-time exceptions of every kind: the version prefix itself exceeds the int-string limit (4300
+    # digits), odd-length / non-hex masks, non-ASCII digits, signed / zero / underscore versions
+    "7" * 4301 + "|", "7" * 4301 + "|aabbccdd|1122|5", "2" + "0" * 4300 + "|aabbccdd|1122|5", "9" * 4300 + "|x",
+    "2|abc|1122|5", "2|aabbccd|1122|5", "2|aabbccdd|1122|\xb2", "\xb2|aabbccdd|1122|5", "2|\xb2\xb2\xb2\xb2|1122|5",
+    "0|aabbccdd|1122|5", "-1|aabbccdd|1122|5", "+2|aabbccdd|1122|5", "2_0|aabbccdd|1122|5", "2|aabbccdd|1122|-5",
+    "2|aabbccdd|11zz|5", "2|aabbccdd|1122|5|", "|2|aabbccdd|1122|5", "2|aabbccdd|1122|5.0", "2|aabbccdd|1122|1e3",
 ]
 mask_s = st.one_of(st.binary(min_size=4, max_size=4), st.sampled_from([b"\0\0\0\0", b"\xff\xff\xff\xff", b"abcd"]))
 ts_s = st.sampled_from(["1700000000", "0", "5", "99999999999", "007"])
@@ -415,9 +429,25 @@ carriers_s = st.one_of(
 method_s = st.sampled_from(["POST", "POST", "POST", "PUT", "DELETE", "PATCH", "GET", "HEAD", "OPTIONS"])
 case_s = st.tuples(st.sampled_from([1, 2, 2]), seed_s, cookie_s, carriers_s, method_s)
 
-PARTS = {"main": run_case}
+def edge_cases():
+    """Every malformed string in the cookie position (with itself and with a valid token as the token) and
+    in the token position (against an issued cookie), through a body field and a header, for both app
+    versions: decode-time exceptions must end in 403, whatever raised them."""
+    for version in (1, 2):
+        for i, bad in enumerate(MALFORMED):
+            seed = bytes([i % 251 + 1])
+            for carrier in ("form", "x-xsrftoken"):
+                yield (version, seed, ("literal", bad), [(carrier, ("cookie_value",))], "POST")
+                yield (version, seed, ("literal", bad), [(carrier, ("remask", b"abcd", "5"))], "PUT")
+                yield (version, seed, ("issued",), [(carrier, ("literal", bad))], "POST")
+            yield (version, seed, ("enc2", b"abcd", "5"), [("query", ("literal", bad))], "DELETE")
+            yield (version, seed, ("issued",), [("multipart", ("literal", bad))], "PATCH")
+
+
+PARTS = {"main": run_case, "edge": run_case}
 
 
 def main(ctx):
     ctx.run_replays(PARTS)
+    ctx.enumerate(edge_cases(), run_case, name="edge")
     ctx.explore(case_s, run_case, ctx.n(1200, 60000), name="main")
